@@ -209,6 +209,9 @@ var floatAlphabet = []string{"Ud1", "A4", "Ud2", "Rd"}
 // a = 2, b = 2 is the state p2 panics on
 var panicAlphabet = []string{"Ua2", "Ub2", "A2", "Ua1"}
 
+// an update addressed to a node id that does not exist, among ordinary operations
+var strayAlphabet = []string{"Ux", "Ua1", "A1", "Ra"}
+
 type opIn struct{ code string }
 
 type mstate struct{ a, b, c, d, v int } // v: number of completed updates = the model version
@@ -220,6 +223,11 @@ var model = porcupine.Model{
 		code := input.(opIn).code
 		switch code[0] {
 		case 'U':
+			if code[1] == 'x' {
+				// an update addressed to a node that is not a parameter fails (the instance panics by
+				// contract, the endpoint answers 500) and changes nothing
+				return output.(string) == "panic", s
+			}
 			v := int(code[2] - '0')
 			switch code[1] {
 			case 'a':
@@ -278,8 +286,20 @@ func perform(w world, code string) string {
 	case 'V':
 		return fmt.Sprint(w.inst.ModelVersion() - w.v0)
 	case 'U':
-		if _, err := w.inst.UpdateParameter(w.paramID(code), message(code)); err != nil {
-			return "error: " + err.Error()
+		var uerr error
+		if panicked := func() (p bool) {
+			defer func() {
+				if recover() != nil {
+					p = true
+				}
+			}()
+			_, uerr = w.inst.UpdateParameter(w.paramID(code), message(code))
+			return
+		}(); panicked {
+			return "panic"
+		}
+		if uerr != nil {
+			return "error: " + uerr.Error()
 		}
 		return "ok"
 	case 'R':
@@ -319,6 +339,8 @@ func (w world) paramID(code string) string {
 		return w.cID
 	case 'd':
 		return w.dID
+	case 'x':
+		return "Node-404" // no such node
 	}
 	return w.aID
 }
@@ -334,6 +356,9 @@ func message(code string) []byte {
 		b, _ := json.Marshal(dValues[code[2]-'0'])
 		return b
 	}
+	if code[1] == 'x' {
+		return []byte("1")
+	}
 	return []byte(code[2:])
 }
 
@@ -348,7 +373,20 @@ func performHTTP(w world, code string) string {
 	}
 	switch code[0] {
 	case 'U':
-		w.paramH.ServeHTTP(rec, httptest.NewRequest(http.MethodPost, "/parameter/value/"+id, bytes.NewReader(message(code))))
+		if panicked := func() (p bool) {
+			defer func() {
+				if recover() != nil {
+					p = true
+				}
+			}()
+			w.paramH.ServeHTTP(rec, httptest.NewRequest(http.MethodPost, "/parameter/value/"+id, bytes.NewReader(message(code))))
+			return
+		}(); panicked {
+			return "panic"
+		}
+		if code[1] == 'x' && rec.Code >= 400 {
+			return "panic" // refused, however the endpoint words it
+		}
 		if rec.Code != http.StatusOK {
 			return fmt.Sprintf("http %d: %s", rec.Code, rec.Body.String())
 		}
@@ -571,6 +609,8 @@ func run(c *core.Ctx) {
 		{"instance: float parameter with close values, 2 clients x <=2 ops", "instance", floatAlphabet, 2, 2},
 		{"instance: a state the producer cannot render, 2 clients x <=2 ops", "instance", panicAlphabet, 2, 2},
 		{"server: a state the producer cannot render, 2 clients x <=2 ops", "server", panicAlphabet, 2, 2},
+		{"instance: an update addressed to no parameter, 2 clients x <=2 ops", "instance", strayAlphabet, 2, 2},
+		{"server: an update addressed to no parameter, 2 clients x <=2 ops", "server", strayAlphabet, 2, 2},
 	}
 	if c.Thorough() {
 		fams = append(fams,
